@@ -170,6 +170,53 @@ func inlineWithReturns(pk *packages.Package, f *ast.File, content []byte, call *
 	if bad != "" {
 		return nil, fmt.Errorf("%s", bad)
 	}
+	// defer statements at the top level of the callee's body whose call is a plain `f()` / `x.m()` / `x.y.m()` on names
+	// the body never assigns again: they are turned into explicit calls in front of every exit they cover (an exit covers
+	// the defers that precede, at the top level, the statement it sits in), in reverse order — what the deferred calls
+	// do when the helper returns. Any other defer keeps the stricter rule below.
+	type topDefer struct {
+		idx  int
+		stmt *ast.DeferStmt
+		text string
+	}
+	var topDefers []topDefer
+	convertDefers := hasDefer
+	if hasDefer {
+		nTop := 0
+		for i, st := range callee.Body.List {
+			ds, ok := st.(*ast.DeferStmt)
+			if !ok {
+				continue
+			}
+			nTop++
+			if len(ds.Call.Args) != 0 || !plainCallee(ds.Call.Fun) {
+				convertDefers = false
+				break
+			}
+			root := rootIdent(ds.Call.Fun)
+			if root == nil || assignedIn(info, callee.Body, root, ds.Pos()) {
+				convertDefers = false
+				break
+			}
+			topDefers = append(topDefers, topDefer{i, ds, srcOf(fset, calleeContent, ds.Call)})
+		}
+		nAll := 0
+		ast.Inspect(callee.Body, func(n ast.Node) bool {
+			if _, isLit := n.(*ast.FuncLit); isLit {
+				return false
+			}
+			if _, ok := n.(*ast.DeferStmt); ok {
+				nAll++
+			}
+			return true
+		})
+		if nAll != nTop {
+			convertDefers = false
+		}
+	}
+	if convertDefers {
+		hasDefer = false
+	}
 	if hasDefer && form != "return" {
 		// only when the caller returns right after the call statement
 		ok := false
@@ -343,13 +390,45 @@ func inlineWithReturns(pk *packages.Package, f *ast.File, content []byte, call *
 	bodyStart := fset.Position(callee.Body.Lbrace).Offset + 1
 	bodyEnd := fset.Position(callee.Body.Rbrace).Offset
 	body := append([]byte(nil), calleeContent[bodyStart:bodyEnd]...)
+	// the explicit calls that stand for the converted defers at an exit inside the top-level statement `topIdx`
+	deferCalls := func(topIdx int) string {
+		var b strings.Builder
+		for i := len(topDefers) - 1; i >= 0; i-- {
+			if topDefers[i].idx < topIdx {
+				b.WriteString(topDefers[i].text + "; ")
+			}
+		}
+		return b.String()
+	}
+	topIndexOf := func(pos token.Pos) int {
+		for i, st := range callee.Body.List {
+			if st.Pos() <= pos && pos < st.End() {
+				return i
+			}
+		}
+		return len(callee.Body.List)
+	}
+	type edit struct {
+		s, e int
+		repl string
+	}
+	var edits []edit
+	if convertDefers {
+		for _, td := range topDefers {
+			edits = append(edits, edit{fset.Position(td.stmt.Pos()).Offset - bodyStart, fset.Position(td.stmt.End()).Offset - bodyStart, "{}"})
+		}
+	}
 	sort.Slice(returns, func(i, j int) bool { return returns[i].Pos() > returns[j].Pos() })
 	for _, rt := range returns {
 		s, e := fset.Position(rt.Pos()).Offset-bodyStart, fset.Position(rt.End()).Offset-bodyStart
+		dc := ""
+		if convertDefers {
+			dc = deferCalls(topIndexOf(rt.Pos()))
+		}
 		var repl string
 		switch {
 		case nres == 0:
-			repl = fmt.Sprintf("break %send", pre)
+			repl = fmt.Sprintf("{ %sbreak %send }", dc, pre)
 		case len(rt.Results) == 0:
 			// bare return of named results
 			var ns []string
@@ -359,15 +438,23 @@ func inlineWithReturns(pk *packages.Package, f *ast.File, content []byte, call *
 				}
 				ns = append(ns, r.name)
 			}
-			repl = fmt.Sprintf("{ %s = %s; break %send }", strings.Join(rnames, ", "), strings.Join(ns, ", "), pre)
+			repl = fmt.Sprintf("{ %s = %s; %sbreak %send }", strings.Join(rnames, ", "), strings.Join(ns, ", "), dc, pre)
 		default:
 			var es []string
 			for _, x := range rt.Results {
 				es = append(es, srcOf(fset, calleeContent, x))
 			}
-			repl = fmt.Sprintf("{ %s = %s; break %send }", strings.Join(rnames, ", "), strings.Join(es, ", "), pre)
+			repl = fmt.Sprintf("{ %s = %s; %sbreak %send }", strings.Join(rnames, ", "), strings.Join(es, ", "), dc, pre)
 		}
-		body = append(body[:s:s], append([]byte(repl), body[e:]...)...)
+		edits = append(edits, edit{s, e, repl})
+	}
+	sort.Slice(edits, func(i, j int) bool { return edits[i].s > edits[j].s })
+	for _, ed := range edits {
+		body = append(body[:ed.s:ed.s], append([]byte(ed.repl), body[ed.e:]...)...)
+	}
+	fallOff := ""
+	if convertDefers {
+		fallOff = deferCalls(len(callee.Body.List))
 	}
 	// --- assemble
 	var b bytes.Buffer
@@ -392,7 +479,7 @@ func inlineWithReturns(pk *packages.Package, f *ast.File, content []byte, call *
 	}
 	fmt.Fprintf(&b, "%send:\nfor {\n", pre)
 	b.Write(body)
-	fmt.Fprintf(&b, "\nbreak %send\n}\n}\n", pre)
+	fmt.Fprintf(&b, "\n%sbreak %send\n}\n}\n", fallOff, pre)
 	for _, rn := range rnames {
 		fmt.Fprintf(&b, "_ = %s\n", rn)
 	}
@@ -465,4 +552,64 @@ func stmtListOf(path []ast.Node, stmt ast.Stmt) []ast.Stmt {
 		}
 	}
 	return nil
+}
+
+// plainCallee: f, x.m, x.y.m — identifiers and field/method selections only
+func plainCallee(e ast.Expr) bool {
+	switch x := ast.Unparen(e).(type) {
+	case *ast.Ident:
+		return true
+	case *ast.SelectorExpr:
+		return plainCallee(x.X)
+	}
+	return false
+}
+
+func rootIdent(e ast.Expr) *ast.Ident {
+	for {
+		switch x := ast.Unparen(e).(type) {
+		case *ast.Ident:
+			return x
+		case *ast.SelectorExpr:
+			e = x.X
+		default:
+			return nil
+		}
+	}
+}
+
+// assignedIn: the variable `root` denotes is assigned (or its address taken) somewhere in body after position `after`
+func assignedIn(info *types.Info, body *ast.BlockStmt, root *ast.Ident, after token.Pos) bool {
+	obj := info.Uses[root]
+	if obj == nil {
+		return true
+	}
+	if _, isVar := obj.(*types.Var); !isVar {
+		return false // a function or package name
+	}
+	found := false
+	ast.Inspect(body, func(n ast.Node) bool {
+		switch x := n.(type) {
+		case *ast.AssignStmt:
+			if x.Pos() > after {
+				for _, l := range x.Lhs {
+					if id, ok := ast.Unparen(l).(*ast.Ident); ok && (info.Uses[id] == obj || info.Defs[id] == obj) {
+						found = true
+					}
+				}
+			}
+		case *ast.UnaryExpr:
+			if x.Op == token.AND {
+				if id, ok := ast.Unparen(x.X).(*ast.Ident); ok && info.Uses[id] == obj {
+					found = true
+				}
+			}
+		case *ast.IncDecStmt:
+			if id, ok := ast.Unparen(x.X).(*ast.Ident); ok && info.Uses[id] == obj && x.Pos() > after {
+				found = true
+			}
+		}
+		return !found
+	})
+	return found
 }
